@@ -423,7 +423,9 @@ def merge(agg, res):
     for k, n in res.get('probes', {}).items():
         agg['probes'][k] = agg['probes'].get(k, 0) + n
     for k, n in res.get('extra', {}).items():
-        if isinstance(n, (int, float)):
+        if k.startswith('max_'):
+            agg['extra'][k] = max(agg['extra'].get(k, 0), n)
+        elif isinstance(n, (int, float)):
             agg['extra'][k] = agg['extra'].get(k, 0) + n
         else:
             agg['extra'][k] = n
